@@ -1,7 +1,12 @@
 """Fail-closed translator: qutip_qip/noise.py (class RelaxationNoise)  ->  coq/Gen/Noise.v
 
 Walks the Python `ast` only and emits SYNTAX TREES of the languages of coq/Model/Relax.v (nex / cnd / stmt /
-gex); it evaluates nothing.  Any node outside the accepted subset raises
+gex).  The only evaluation it performs is exact rational folding of sub-expressions that consist of numeric LITERALS
+only (`1.0 / 2.0` and `0.5` both become `ENum (1 # 2)`; a literal division by zero is never folded), which is what
+the exact-rational model would compute anyway.  Equivalent control-flow shapes are normalised before matching
+(if/elif/else vs early return, conditional expression vs if/else assignment, `not`/De Morgan through the cnd/gex
+constructors, `x > y` vs `y < x`), local temporaries are resolved through an environment (operator variables,
+sqrt-valued scalar temporaries, `d = dims[q]`).  Any node outside the accepted subset raises
 Broken("translator:noise.py:<function>", detail).
 
 Emitted:
@@ -142,10 +147,41 @@ def tr_t_to_list(fn):
 # ------------------------------------------------------------------------------------------------
 # get_noisy_pulses
 # ------------------------------------------------------------------------------------------------
+def _const(n):
+    """exact value of an expression made of numeric literals only, else None (never folds a division by zero)"""
+    if isinstance(n, ast.Constant):
+        v = n.value
+        if isinstance(v, bool) or not isinstance(v, (int, float)) or v != v or v in (float("inf"), float("-inf")):
+            return None
+        return Fraction(v)
+    if isinstance(n, ast.UnaryOp) and isinstance(n.op, (ast.USub, ast.UAdd)):
+        v = _const(n.operand)
+        return None if v is None else (-v if isinstance(n.op, ast.USub) else v)
+    if isinstance(n, ast.BinOp):
+        a, b = _const(n.left), _const(n.right)
+        if a is None or b is None:
+            return None
+        if isinstance(n.op, ast.Add):
+            return a + b
+        if isinstance(n.op, ast.Sub):
+            return a - b
+        if isinstance(n.op, ast.Mult):
+            return a * b
+        if isinstance(n.op, ast.Div) and b != 0:
+            return a / b
+    return None
+
+
+def _names(n):
+    return {x.id for x in ast.walk(n) if isinstance(x, ast.Name)}
+
+
 class Body:
     def __init__(self, loopvar, dims, sink):
         self.loopvar, self.dims, self.sink = loopvar, dims, sink
         self.slots = {}
+        self.inline = {}     # sqrt-valued scalar temporaries: name -> (ast expression, names it reads)
+        self.dimvars = set()  # names bound to dims[loopvar]
 
     def slot(self, name, create=False):
         if name not in self.slots:
@@ -155,12 +191,14 @@ class Body:
         return self.slots[name]
 
     def ex(self, n):
+        c = _const(n)
+        if c is not None:
+            return f"ENum {q(c)}"
         if isinstance(n, ast.Constant):
-            v = n.value
-            if isinstance(v, bool) or not isinstance(v, (int, float)):
-                raise Refuse(f"constant {v!r}")
-            return f"ENum {q(v)}"
+            raise Refuse(f"constant {n.value!r}")
         if isinstance(n, ast.Name):
+            if n.id in self.inline:
+                return self.ex(self.inline[n.id][0])
             return f"EVar {self.slot(n.id)}"
         if isinstance(n, ast.UnaryOp) and isinstance(n.op, ast.USub):
             return f"ENeg ({self.ex(n.operand)})"
@@ -171,7 +209,7 @@ class Body:
                 if isinstance(n.op, k):
                     return f"{v} ({self.ex(n.left)}) ({self.ex(n.right)})"
             raise Refuse(f"operator {type(n.op).__name__}")
-        if isinstance(n, ast.Call) and ast.unparse(n.func) in ("np.sqrt", "numpy.sqrt") and len(n.args) == 1 and not n.keywords:
+        if isinstance(n, ast.Call) and ast.unparse(n.func) in ("np.sqrt", "numpy.sqrt", "math.sqrt", "sqrt") and len(n.args) == 1 and not n.keywords:
             return f"ESqrt ({self.ex(n.args[0])})"
         raise Refuse(f"scalar {ast.unparse(n)}")
 
@@ -184,8 +222,9 @@ class Body:
         """operator expression -> (coef nex or None for 1, kind)"""
         if isinstance(n, ast.Call) and isinstance(n.func, ast.Name) and n.func.id in ("destroy", "num"):
             a = n.args
-            ok = (len(a) == 1 and not n.keywords and isinstance(a[0], ast.Subscript) and _is_name(a[0].value, self.dims)
-                  and _is_name(a[0].slice, self.loopvar))
+            ok = (len(a) == 1 and not n.keywords and
+                  ((isinstance(a[0], ast.Subscript) and _is_name(a[0].value, self.dims) and _is_name(a[0].slice, self.loopvar))
+                   or (isinstance(a[0], ast.Name) and a[0].id in self.dimvars)))
             if not ok:
                 raise Refuse(f"operator argument {ast.unparse(n)}")
             return None, ("KDestroy" if n.func.id == "destroy" else "KNum")
@@ -213,9 +252,16 @@ class Body:
                 out = f"{op} ({p}) ({out})"
             return out
         if isinstance(n, ast.UnaryOp) and isinstance(n.op, ast.Not):
-            return f"CNot ({self.cond(n.operand)})"
+            inner = self.cond(n.operand)
+            if inner.startswith("CNot (") and inner.endswith(")"):      # double negation
+                return inner[len("CNot ("):-1]
+            return f"CNot ({inner})"
+        if isinstance(n, ast.Name) and n.id in self.slots and self.slots[n.id] >= 2:
+            return f"CNot (CEq (EVar {self.slots[n.id]}) (ENum (0 # 1)))"     # truthiness of a float local
         if isinstance(n, ast.Compare) and len(n.ops) == 1:
             l, op, r = n.left, n.ops[0], n.comparators[0]
+            if isinstance(op, (ast.Is, ast.IsNot)) and isinstance(l, ast.Constant) and l.value is None and isinstance(r, ast.Name):
+                l, r = r, l
             if isinstance(op, (ast.Is, ast.IsNot)):
                 if isinstance(l, ast.Name) and isinstance(r, ast.Constant) and r.value is None:
                     return f"{'CIsNone' if isinstance(op, ast.Is) else 'CNotNone'} {self.slot(l.id)}"
@@ -228,9 +274,10 @@ class Body:
                     return v
         raise Refuse(f"condition {ast.unparse(n)}")
 
-    def block(self, stmts, ops):
+    def block(self, stmts, ops, depth_in_branch=False):
         """ops: name -> (coef, kind) for operator variables assigned earlier in this or an enclosing block"""
         ops = dict(ops)
+        saved_inline, saved_dim = dict(self.inline), set(self.dimvars)   # temporaries are block scoped
         out = []
         for s in stmts:
             if isinstance(s, ast.Pass) or (isinstance(s, ast.Expr) and isinstance(s.value, ast.Constant)):
@@ -240,8 +287,8 @@ class Body:
             elif isinstance(s, ast.Continue):
                 out.append("SContinue")
             elif isinstance(s, ast.If):
-                th = self.block(s.body, ops)
-                el = self.block(s.orelse, ops)
+                th = self.block(s.body, ops, True)
+                el = self.block(s.orelse, ops, True)
                 # an operator variable (re)bound inside a branch is not tracked past the branch
                 for sub in ast.walk(s):
                     if isinstance(sub, ast.Assign):
@@ -256,11 +303,29 @@ class Body:
                     ops[name] = (coef if coef is not None else "ENum (1 # 1)", kind)
                     if name in self.slots:
                         raise Refuse(f"{name} is both scalar and operator")
+                elif (isinstance(s.value, ast.Subscript) and _is_name(s.value.value, self.dims)
+                      and _is_name(s.value.slice, self.loopvar)):
+                    if name in self.slots or name in self.inline or name in ops:
+                        raise Refuse(f"{name} rebound to a dimension")
+                    self.dimvars.add(name)
                 else:
-                    if name in ops:
-                        raise Refuse(f"{name} is both scalar and operator")
-                    e = self.ex(s.value)
-                    out.append(f"SAssign {self.slot(name, create=True)} ({e})")
+                    if name in ops or name in self.dimvars:
+                        raise Refuse(f"{name} is both scalar and operator/dimension")
+                    for other, (_, reads) in self.inline.items():
+                        if name in reads:
+                            raise Refuse(f"{name} reassigned after the temporary {other} that reads it")
+                    has_sqrt = any(isinstance(c, ast.Call) and ast.unparse(c.func) in ("np.sqrt", "numpy.sqrt", "math.sqrt", "sqrt")
+                                   for c in ast.walk(s.value)) or any(x in self.inline for x in _names(s.value))
+                    if has_sqrt:
+                        if name in self.slots or name in self.inline:
+                            raise Refuse(f"sqrt-valued temporary {name} rebound")
+                        self.ex(s.value)      # must be translatable where it is defined
+                        self.inline[name] = (s.value, _names(s.value))
+                    else:
+                        if name in self.inline:
+                            raise Refuse(f"{name} rebound")
+                        e = self.ex(s.value)
+                        out.append(f"SAssign {self.slot(name, create=True)} ({e})")
             elif (isinstance(s, ast.Expr) and isinstance(s.value, ast.Call) and isinstance(s.value.func, ast.Attribute)
                   and s.value.func.attr == "add_lindblad_noise" and _is_name(s.value.func.value, self.sink)):
                 c = s.value
@@ -296,6 +361,8 @@ class Body:
                 out.append(f"SEmit ({coef}) {kind}")
             else:
                 raise Refuse(f"statement {type(s).__name__}: {ast.unparse(s)[:80]}")
+        if depth_in_branch:
+            self.inline, self.dimvars = saved_inline, saved_dim
         if not out:
             return "SSkip"
         res = out[-1]
@@ -314,6 +381,7 @@ def tr_get_noisy_pulses(fn, ttl_name):
     have = set()
     loop = None
     tvar = None
+    pending_targets = False
     for s in body:
         src = ast.unparse(s)
         if loop is not None:
@@ -335,7 +403,10 @@ def tr_get_noisy_pulses(fn, ttl_name):
             have.add(s.targets[0].attr)
             continue
         if (isinstance(s, ast.If) and nname and not s.orelse and len(s.body) == 1 and isinstance(s.body[0], ast.Raise)
-                and ast.unparse(s.test) == f"len(self.t1) != {nname} or len(self.t2) != {nname}"):
+                and ast.unparse(s.test) in (f"len(self.t1) != {nname} or len(self.t2) != {nname}",
+                                            f"len(self.t2) != {nname} or len(self.t1) != {nname}",
+                                            f"not (len(self.t1) == {nname} and len(self.t2) == {nname})",
+                                            f"{nname} != len(self.t1) or {nname} != len(self.t2)")):
             if not {"t1", "t2"} <= have:
                 raise Refuse("length check before normalisation")
             lencheck = True
@@ -344,12 +415,35 @@ def tr_get_noisy_pulses(fn, ttl_name):
                 and nname and ast.unparse(s.body[0]) == f"targets = range({nname})" and ast.unparse(s.orelse[0]) == "targets = self.targets"):
             tvar = "targets"
             continue
+        if (isinstance(s, ast.Assign) and len(s.targets) == 1 and isinstance(s.targets[0], ast.Name) and nname
+                and isinstance(s.value, ast.IfExp)
+                and (ast.unparse(s.value.test), ast.unparse(s.value.body), ast.unparse(s.value.orelse)) in (
+                    ("self.targets is None", f"range({nname})", "self.targets"),
+                    ("self.targets is not None", "self.targets", f"range({nname})"))):
+            tvar = s.targets[0].id
+            continue
+        if (isinstance(s, ast.If) and ast.unparse(s.test) == "self.targets is not None" and len(s.body) == 1 and len(s.orelse) == 1
+                and nname and ast.unparse(s.orelse[0]) == f"targets = range({nname})" and ast.unparse(s.body[0]) == "targets = self.targets"):
+            tvar = "targets"
+            continue
+        if (isinstance(s, ast.Assign) and len(s.targets) == 1 and _is_name(s.targets[0], "targets")
+                and ast.unparse(s.value) == "self.targets"):
+            # `targets = self.targets` followed by `if targets is None: targets = range(N)`
+            pending_targets = True
+            continue
+        if (isinstance(s, ast.If) and pending_targets and ast.unparse(s.test) == "targets is None" and not s.orelse and nname
+                and len(s.body) == 1 and ast.unparse(s.body[0]) == f"targets = range({nname})"):
+            tvar = "targets"
+            pending_targets = False
+            continue
         if isinstance(s, ast.For) and tvar and _is_name(s.iter, tvar) and isinstance(s.target, ast.Name) and not s.orelse:
             if not {"t1", "t2"} <= have:
                 raise Refuse("loop before normalisation of t1/t2")
             loop = s
             continue
         raise Refuse(f"prelude statement: {src[:80]}")
+    if pending_targets:
+        raise Refuse("targets default not established")
     if loop is None or "return" not in have:
         raise Refuse("no qubit loop / return")
     lv = loop.target.id
